@@ -548,7 +548,7 @@ pub fn gen_row(g: &mut G<'_>, cols: &[ColSpec], bin: bool, last: bool) -> RowPro
         let n = g.usize_in(0, 2);
         let cells: Vec<Val> = (0..n).map(|_| Val::plain(Base::I32(g.below(100) as i32))).collect();
         let form = *g.pick(&[RowForm::WriteRow, RowForm::WriteRowRef, RowForm::Cols, RowForm::Cols]);
-        return RowProg { cells, form };
+        return RowProg { cells, form, offers: vec![] };
     }
     let cells: Vec<Val> = cols.iter().map(|c| gen_cell(g, c, bin)).collect();
     let form = match g.weighted(&[3, 2, 3, if last && !cols.is_empty() { 2 } else { 0 }, if cols.len() >= 2 { 1 } else { 0 }]) {
@@ -558,7 +558,74 @@ pub fn gen_row(g: &mut G<'_>, cols: &[ColSpec], bin: bool, last: bool) -> RowPro
         3 => RowForm::ColsOpen,
         _ => RowForm::Mixed(g.usize_in(1, cols.len() - 1)),
     };
-    RowProg { cells, form }
+    let mut offers = Vec::new();
+    if bin && g.chance(1, 6) {
+        // a shim with fallback values: some cells are first offered something the column cannot
+        // carry, which has to be refused without a trace in the row
+        let upto = match form {
+            RowForm::Cols | RowForm::ColsOpen => cols.len() + 1,
+            RowForm::Mixed(k) => k.min(cols.len()),
+            _ => 0,
+        };
+        if upto > 0 {
+            let n = if g.chance(2, 3) { 1 } else { g.usize_in(2, 4) };
+            for _ in 0..n {
+                // the first column, the byte boundaries of the bitmap and the surplus column matter most
+                let i = match g.weighted(&[3, 3, 2]) {
+                    0 => 0,
+                    1 => g.usize_in(0, upto - 1),
+                    _ => upto - 1,
+                };
+                if let Some(v) = gen_refusable(g, cols.get(i)) {
+                    offers.push((i, v));
+                }
+            }
+            offers.sort_by_key(|(i, _)| *i);
+        }
+    }
+    RowProg { cells, form, offers }
+}
+
+/// a value the binary column `c` cannot carry and that the encoders refuse with an error (never by
+/// assert!: integer-to-integer mismatches are left out); `None` column = the surplus column after
+/// the last one, for which everything is refused
+pub fn gen_refusable(g: &mut G<'_>, c: Option<&ColSpec>) -> Option<Val> {
+    let c = match c {
+        None => return Some(Val { base: gen_bin_base(g, T_LONG, false).unwrap_or(Base::I32(1)), wrap: gen_wrap(g, true) }),
+        Some(c) => c,
+    };
+    if c.not_null() && g.coin() {
+        let base = gen_bin_base(g, c.coltype, c.unsigned()).unwrap_or(Base::U8(0));
+        return Some(match g.below(3) {
+            0 => Val { base, wrap: Wrap::None },
+            1 => Val { base, wrap: Wrap::RefNone },
+            _ => Val { base: Base::My(MyVal::Null), wrap: *g.pick(&[Wrap::Plain, Wrap::Ref]) },
+        });
+    }
+    let int_col = crate::model::col_int_range(c.coltype, c.unsigned()).is_some();
+    for _ in 0..4 {
+        let base = match g.below(5) {
+            0 => Base::Slice(gen_bytes(g, false)),
+            1 => Base::F64(gen_f64_bits(g)),
+            2 => {
+                let (y, m, d) = gen_date(g);
+                Base::Date(y, m, d)
+            }
+            3 => {
+                let (s, us) = gen_dur(g, 3_000_000);
+                Base::Dur(s, us)
+            }
+            _ => Base::I32(g.i64_biased() as i32),
+        };
+        let is_int = matches!(crate::model::sem_of_base(&base), crate::model::Sem::Int(_));
+        if is_int && int_col {
+            continue;
+        }
+        if matches!(crate::model::bin_expect(&base, c.coltype, c.unsigned()), crate::model::BinExpect::Refuse) {
+            return Some(Val { base, wrap: gen_wrap(g, false) });
+        }
+    }
+    None
 }
 
 pub fn gen_set(g: &mut G<'_>, bin: bool, end: SetEnd, max_rows: usize) -> Step {
